@@ -719,6 +719,61 @@ func c02Case(w *core.Worker, i int) {
 			w.Count("fixed_length_files_updated", 1)
 		}
 	}
+	// column names that are paths into one JSON object (`a.b` next to `a`): whichever comes first, the result is either refused
+	// with nothing written or reads back with as many columns as were written
+	if i%10 == 7 {
+		for _, hdr := range [][]string{{"a.b", "a"}, {"a", "a.b"}, {"x.y.z", "x.y", "k"}, {"k", "x.y", "x.y.z"}, {"a.b", "a.c", "a"}, {"p.q", "r", "p"}} {
+			for _, fm := range []string{"JSON", "JSONL"} {
+				fd := core.FreshDir(w.Work, "paths")
+				var sel []string
+				for k, h := range hdr {
+					sel = append(sel, fmt.Sprintf("%d AS `%s`", k+1, h))
+				}
+				q := "SELECT " + strings.Join(sel, ", ")
+				out := "o." + strings.ToLower(fm)
+				r1 := core.RunProc(core.ProcOpts{Dir: fd, Args: csvqArgs("-q", "-f", fm, "--out", out, q), Timeout: 60 * time.Second})
+				b, rerr := os.ReadFile(filepath.Join(fd, out))
+				pviol := func(sig, what string) {
+					w.Violation(sig+":"+fm, fmt.Sprintf("%s written as %s: %s; file now %q", q, fm, what, truncateStr(string(b), 200)), c02Replay{Dialect: c02Dialect{Format: fm}, Path: "--out", Detail: q + ": " + what})
+				}
+				if r1.Code != 0 {
+					if rerr == nil && len(b) > 0 {
+						pviol("refused-but-written", fmt.Sprintf("exit %d but the file holds %d bytes", r1.Code, len(b)))
+					}
+					w.Count("json_path_headers_refused", 1)
+					continue
+				}
+				r2 := core.RunProc(core.ProcOpts{Dir: fd, Args: csvqArgs("-q", "-f", "CSV", "SELECT * FROM `"+out+"`"), Timeout: 60 * time.Second})
+				lines := strings.Split(strings.TrimSpace(r2.Stdout), "\n")
+				if r2.Code != 0 || len(lines) != 2 || len(strings.Split(lines[1], ",")) != len(hdr) {
+					pviol("column-count", fmt.Sprintf("%d columns were written, the file reads back as %q (exit %d)", len(hdr), truncateStr(r2.Stdout, 200), r2.Code))
+				}
+				w.Count("json_path_headers_written", 1)
+			}
+		}
+	}
+	// a JSON table that is a member of a larger document, read through --json-query and updated: under the same settings the
+	// committed file must read back as the updated table (one bounded probe per run; see known_findings.json)
+	if i == 5 {
+		fd := core.FreshDir(w.Work, "jq")
+		doc := "{\"data\":[{\"id\":1,\"v\":\"a\"},{\"id\":2,\"v\":\"b\"}],\"meta\":{\"n\":2}}\n"
+		core.WriteFiles(fd, map[string]string{"doc.json": doc})
+		ja := csvqArgs("-q", "-f", "CSV", "--json-query", "data")
+		r1 := core.RunProc(core.ProcOpts{Dir: fd, Args: append(append([]string{}, ja...), "UPDATE `doc.json` SET v = 'z' WHERE id = 1"), Timeout: 60 * time.Second})
+		b, _ := os.ReadFile(filepath.Join(fd, "doc.json"))
+		if r1.Code != 0 {
+			if string(b) != doc {
+				w.Violation("refused-but-written:JSON", fmt.Sprintf("UPDATE through --json-query data: exit %d but the file changed to %q", r1.Code, truncateStr(string(b), 200)), c02Replay{Bytes: doc, Dialect: c02Dialect{Format: "JSON"}, Path: "UPDATE", Detail: "--json-query data"})
+			}
+		} else {
+			r2 := core.RunProc(core.ProcOpts{Dir: fd, Args: append(append([]string{}, ja...), "SELECT id, v FROM `doc.json`"), Timeout: 60 * time.Second})
+			if r2.Code != 0 || strings.TrimSpace(r2.Stdout) != "id,v\n1,z\n2,b" {
+				w.Violation("unreadable-after-write:json-query-update-replaces-the-document:JSON", fmt.Sprintf("UPDATE `doc.json` SET v = 'z' WHERE id = 1 under --json-query data on %q: the committed file %q reads back under the same settings as %q (exit %d: %s)", doc, truncateStr(string(b), 200), truncateStr(r2.Stdout, 100), r2.Code, truncateStr(r2.Stderr, 120)),
+					c02Replay{Bytes: doc, Dialect: c02Dialect{Format: "JSON"}, Path: "UPDATE", Detail: "--json-query data"})
+			}
+		}
+		w.Count("json_query_updates_probed", 1)
+	}
 	// … and their columns are added, dropped and renamed: what COMMIT writes must read back (positions found automatically,
 	// as they were for the original) as the table the altering process itself saw after the statement; a refusal leaves the bytes
 	if i%10 == 5 {
